@@ -36,7 +36,8 @@ MANIFEST = {
                   'evaluated from the source), structural upsert-key rule on the two merge '
                   'functions, reuse of the datastore atomicity analyses, namespace-root dataflow '
                   'in the designer policies, encode/decode pairing at every KeyValue.ns site'
-                  '; keyed fill events of the merge dictionary (loops or dict comprehensions); scenario evaluation of the value-type dispatch; provenance of the forwarded algorithm delta (no filtering); shared C04.R1/R4'),
+                  '; keyed fill events of the merge dictionary (loops or dict comprehensions); scenario evaluation of the value-type dispatch; provenance of the forwarded algorithm delta (no filtering); shared C04.R1/R4'
+                  '; presence-vs-truthiness lint for trial ids in metadata helpers'),
     'level_text': (
         'Static: the namespace encoding escapes everything it must to be injective, metadata '
         'merges upsert by (namespace, key) with new-over-old order, failed updates are atomic '
